@@ -391,6 +391,12 @@ func runControlled(t *testing.T, cs Case) *ev.Verdict {
 		}
 	})
 	v.Trace = c.Trace()
+	if c.Prio {
+		v.Class("priority-schedule")
+	}
+	if c.Mix {
+		v.Class("uniform-decisions")
+	}
 	if finalHist != nil && len(v.Viol) == 0 {
 		verdictFor(v, cs.List, cs.Init, finalHist, finalRem)
 	}
